@@ -1,6 +1,6 @@
 (** C03 [equal_sound_partial]: on the class where [types_equal] is plain structural recursion
-    it is sound for the registry shapes (modulo what it never looks at: Box flags and variant
-    indices); refutations of the unrestricted statement. *)
+    it is sound for the registry shapes (modulo what it never looks at there: Box flags);
+    refutations of the unrestricted statement. *)
 From Coq Require Import String List Arith NArith Bool Lia.
 From V Require Import Base.Strings Base.Result Model.Registry Model.Settings Model.Subst
   Model.TypePath Model.Derives Model.Generate Model.Equal Model.Shape Model.EqualPlain
@@ -76,7 +76,8 @@ Section Agree.
     - apply fields_equal_agree; exact H.
     - destruct (negb (Nat.eqb (List.length va) (List.length vb))); [exact H|].
       eapply all2_mono; [|exact H]. intros v w st0 z0 E. cbn beta in *.
-      destruct (String.eqb (v_name v) (v_name w)); [apply fields_equal_agree; exact E|exact E].
+      destruct (String.eqb (v_name v) (v_name w) && N.eqb (v_index v) (v_index w));
+        [apply fields_equal_agree; exact E|exact E].
     - apply Hrec; exact H.
     - destruct (N.eqb la lb); [apply Hrec; exact H|exact H].
     - destruct (negb (Nat.eqb (List.length xs) (List.length ys))); [exact H|].
@@ -240,8 +241,9 @@ Section Sound.
       apply Nat.eqb_eq in El. apply all2_true in H; [|exact El].
       apply Forall2_map_eq. eapply Forall2_imp; [|exact H].
       intros v w (s1 & s2 & E). cbn beta in E.
-      destruct (String.eqb (v_name v) (v_name w)) eqn:En; [|discriminate].
-      apply String.eqb_eq in En. rewrite En, !fields_core. f_equal.
+      destruct (String.eqb (v_name v) (v_name w) && N.eqb (v_index v) (v_index w)) eqn:En; [|discriminate].
+      apply andb_prop in En as [En Ei]. apply String.eqb_eq in En. apply N.eqb_eq in Ei.
+      rewrite En, Ei, !fields_core. f_equal.
       eapply fields_equal_sound; exact E.
     - cbn [shape_core]. f_equal. eapply Hrec; exact H.
     - destruct (N.eqb la lb) eqn:El; [|discriminate]. apply N.eqb_eq in El. subst lb.
@@ -354,7 +356,8 @@ Section Same.
     - apply fields_equal_same; exact H.
     - destruct (negb (Nat.eqb (List.length va) (List.length vb))); [reflexivity|].
       apply all2_same; [|exact H]. intros v w st0 E. cbn beta in *.
-      destruct (String.eqb (v_name v) (v_name w)); [apply fields_equal_same; exact E|reflexivity].
+      destruct (String.eqb (v_name v) (v_name w) && N.eqb (v_index v) (v_index w));
+        [apply fields_equal_same; exact E|reflexivity].
     - apply Hrec; exact H.
     - destruct (N.eqb la lb); [apply Hrec; exact H|reflexivity].
     - destruct (negb (Nat.eqb (List.length xs) (List.length ys))); [reflexivity|].
@@ -528,7 +531,7 @@ Section Footprint.
     - apply fields_equal_nr; assumption.
     - destruct (negb (Nat.eqb (List.length va) (List.length vb))); [apply nr_ret|].
       rewrite !flat_map_flat_map in *. apply all2_nr; [|exact NA|exact NB].
-      intros v w Hv Hw. destruct (String.eqb (v_name v) (v_name w)); [|apply nr_ret].
+      intros v w Hv Hw. destruct (String.eqb (v_name v) (v_name w) && N.eqb (v_index v) (v_index w)); [|apply nr_ret].
       apply fields_equal_nr.
       + intros x y Hx Hy. apply Hrec; apply in_flat_map; [exists v|exists w]; auto.
       + exact (NoDup_flat_map_piece (fun v => flat_map G (map f_ty (v_fields v))) va v NA Hv).
@@ -720,14 +723,11 @@ Proof.
   - split; [vm_compute; reflexivity|]. vm_compute. discriminate.
 Qed.
 
-Theorem equal_sound_refuted_variant_index :
-  exists r s a b,
-    types_equal_plain r a b = Ok true /\ types_equal_res r a b = Ok true /\
-    shape_reg r s 2 a <> shape_reg r s 2 b.
-Proof.
-  exists index_reg, plain_settings, 0%N, 1%N.
-  split; [vm_compute; reflexivity|]. split; [vm_compute; reflexivity|]. vm_compute. discriminate.
-Qed.
+(** regression witness of finding F19 (variant indices were never compared; repaired) *)
+Example variant_index_compared :
+  types_equal_res index_reg 0 1 = Ok false /\ types_equal_plain index_reg 0 1 = Ok false /\
+  shape_reg index_reg plain_settings 2 0 <> shape_reg index_reg plain_settings 2 1.
+Proof. split; [vm_compute; reflexivity|]. split; [vm_compute; reflexivity|]. vm_compute. discriminate. Qed.
 
 Theorem equal_sound_refuted_boxed :
   exists r s a b,
